@@ -338,7 +338,7 @@ func init() {
 		Level: "exploration",
 		Rule: "every signature of 1..3 parameters each strict or lazy, with and without a variadic tail x every assignment of a usage {none, force, force twice, substitute, closure forcing after return, force under a shadowing let} " +
 			"to the lazy parameters x 11 call routes {name, alias, parameter, computed callee, apply, map, tail self-call, non-tail recursion, strict twin called twice, and name / tail self-call after redefining a function whose lazy positions were the opposite} x {no failing argument, argument j fails} x {integer arguments, arguments whose values are lists / symbols / arrays, array-literal arguments} x 0..2 variadic extras x {tail named r, tail named #r}; " +
-			"arguments are traced host calls reading the caller's variable; value, error and trace compared with the reference evaluator (thunk + memo + caller's scope)",
+			"arguments are traced host calls reading the caller's variable; 5 call sites (top level, function, let, top-level loop, array literal) x 7 receivers that shadow the names the argument mentions (let, parameter, def, saved and forced inside another function); value, error and trace compared with the reference evaluator (thunk + memo + caller's scope)",
 		Assumptions: []string{"R1 models lazy parameters as memoised thunks over the caller's scope; apply/map wrap evaluated values; the typed func declaration route is not generated"},
 		Run: func(c *engine.Ctx) {
 			c16runScenarios(c, "")
